@@ -1188,7 +1188,125 @@ def fam_sdenom(vt, cfg):
     return I
 
 
+# ---------------------------------------------------------------------------
+# C12 (partial claim): frexp/ldexp/scalbn/ilogb/logb/frac/fmax/fmin/fdim
+
+def _no_nan_lanes(vt, names_):
+    def ok(vals, names):
+        import fpeval
+        for nm in names_:
+            if nm not in names:
+                continue
+            v = vals[names.index(nm)]
+            for i in range(vt.n):
+                if fpeval.isnan((v >> (i * vt.eb)) & ((1 << vt.eb) - 1), vt.eb):
+                    return False
+        return True
+    return ok
+
+
+def _fdim_domain(vt):
+    """no NaN operand; not both infinite with the same sign (the statement defines fdim as max(x-y, 0),
+    which leaves inf - inf open)"""
+    def ok(vals, names):
+        import fpeval
+        a, b = vals[names.index("a")], vals[names.index("b")]
+        M = (1 << vt.eb) - 1
+        for i in range(vt.n):
+            x = fpeval.decode((a >> (i * vt.eb)) & M, vt.eb)
+            y = fpeval.decode((b >> (i * vt.eb)) & M, vt.eb)
+            if x[0] == "nan" or y[0] == "nan":
+                return False
+            if x[0] == "inf" and y[0] == "inf" and x[1] == y[1]:
+                return False
+        return True
+    return ok
+
+
+def _finite_lanes(vt):
+    def ok(vals, names):
+        import fpeval
+        v = vals[names.index("a")]
+        for i in range(vt.n):
+            d = fpeval.decode((v >> (i * vt.eb)) & ((1 << vt.eb) - 1), vt.eb)
+            if d[0] in ("nan", "inf"):
+                return False
+        return True
+    return ok
+
+
+def judge_numeq(ctx, inst, S):
+    """closed-form comparison where float lanes are compared as numbers (+0 == -0, NaN == NaN)"""
+    import runner
+    import lanecheck
+    lanecheck.NUMEQ[0] = True
+    try:
+        return runner.judge_default(ctx, inst, S)
+    finally:
+        lanecheck.NUMEQ[0] = False
+
+
+def judge_frexp_e(ctx, inst, S):
+    """the exponent vector frexp stores through its pointer argument"""
+    import lanecheck
+    from common import HOLDS, REFUTED, UNDECIDED
+    vt = ctx.vt
+    rule = "frexp stores, per lane, the exponent e with x == m * 2^e, m in [0.5, 1) (0 for zeros); finite inputs"
+    if S.flags & {"loop", "call", "unknown-effect", "asm"}:
+        return UNDECIDED, "unmodelled %s %s" % (sorted(S.flags), S.unknown[:2]), rule, None
+    p = ctx.args["e"]
+    ws = [a for a in S.accesses if a.kind == "w" and a.base is p and a.value is not None]
+    if not ws:
+        return UNDECIDED, "no store through the exponent pointer found", rule, None
+    by = {}
+    for a in ws:
+        for j in range(a.size):
+            by[a.off + j] = T.slice_(a.value, 8 * j, 8)
+    nb = vt.n * vt.eb // 8
+    if sorted(by) != list(range(nb)):
+        return UNDECIDED, "exponent store does not cover exactly %d bytes" % nb, rule, None
+    actual = T.concat([by[j] for j in range(nb)])
+    expected = T.concat([T.op("spec:c_frexp_e", vt.eb, x) for x in ctx.lanes("a")])
+    v, d, w = lanecheck.compare(actual, expected, S, ctx.argspecs, ctx.names, vt.eb, pure=False, env_ok=_finite_lanes(vt))
+    return v, d, rule, w
+
+
+def fam_cmathx(vt, cfg):
+    if not vt.is_float:
+        return []
+    I = []
+    eb = vt.eb
+    A = [("V", "a")]
+    iv = "avel::vec%dx%di" % (vt.n, eb)
+
+    def add(i, env_ok=None, judge=judge_numeq):
+        i.judge = judge
+        if env_ok:
+            i.env_ok = env_ok
+        i.budget_s = 4
+        I.append(i)
+    add(Inst("fmax", VV, "V", "avel::fmax(a, b)", lanewise2(lambda c, x, y: T.op("spec:c_fmax", eb, x, y))))
+    add(Inst("fmin", VV, "V", "avel::fmin(a, b)", lanewise2(lambda c, x, y: T.op("spec:c_fmin", eb, x, y))))
+    add(Inst("fdim", VV, "V", "avel::fdim(a, b)", lanewise2(lambda c, x, y: T.op("spec:c_fdim", eb, x, y))),
+        env_ok=_fdim_domain(vt))
+    add(Inst("frac", A, "V", "avel::frac(a)", lanewise1(lambda c, x: T.op("spec:c_frac", eb, x))))
+    add(Inst("logb", A, "V", "avel::logb(a)", lanewise1(lambda c, x: T.op("spec:c_logb", eb, x))))
+    i = Inst("ilogb", A, "V", "avel::ilogb(a)", lanewise1(lambda c, x: T.op("spec:c_ilogb", eb, x)))
+    i.rettype = iv + "::primitive"
+    add(i)
+    add(Inst("frexp_m", [("V", "a"), ("P2", "e")], "V", "avel::frexp(a, reinterpret_cast<%s*>(e))" % iv,
+             lanewise1(lambda c, x: T.op("spec:c_frexp_m", eb, x))))
+    i = Inst("frexp_e", [("V", "a"), ("P2", "e")], "V", "avel::frexp(a, reinterpret_cast<%s*>(e))" % iv, None)
+    i.pure = False
+    add(i, judge=judge_frexp_e)
+    for fn in ("ldexp", "scalbn"):
+        add(Inst(fn, [("V", "a"), ("VI2", "e")], "V", "avel::%s(a, %s{pe})" % (fn, iv),
+                 lambda c: c.pack([T.op("spec:c_ldexp", eb, x, y) for x, y in zip(c.lanes("a"), c.lanes("e"))])))
+    return I
+
+
 FAMILIES = {
+    "cmathx": fam_cmathx,
     "sdenom": fam_sdenom,
     "floatmisc": fam_floatmisc,
     "vdenom": fam_vdenom,
